@@ -458,6 +458,50 @@ func runC04(r *Run) {
 		r.Floor("R11", "SaveGrant calls that re-save an existing grant", nS, 4)
 	}
 
+	// ---------- R12 ----------
+	r.Rule("R12", "PATH.allocation-matches-port-and-channel: a precompile function that selects one allocation of a transfer grant (it ranges over []Allocation and returns an index / spend limit) reaches its success exit only over the edge SourcePort == sourcePort and only over the edge SourceChannel == sourceChannel — an increase, decrease or spend addressed to one channel never lands on another channel's allocation")
+	{
+		nA := 0
+		for _, fn := range P.Funcs {
+			if !pathHasSuffix(fnPkgPath(fn), "precompiles/ics20") || fn.Synthetic != "" || fn.Parent() != nil || isTestSupport(P, fn) {
+				continue
+			}
+			takes := false
+			for _, p := range fn.Params {
+				if sl, ok := p.Type().Underlying().(*types.Slice); ok && namedName(sl.Elem()) == "Allocation" {
+					takes = true
+				}
+			}
+			var portP, chanP *ssa.Parameter
+			for _, p := range fn.Params {
+				if p.Name() == "sourcePort" {
+					portP = p
+				}
+				if p.Name() == "sourceChannel" {
+					chanP = p
+				}
+			}
+			if !takes || portP == nil || chanP == nil {
+				continue
+			}
+			nA++
+			for _, which := range []struct {
+				p     *ssa.Parameter
+				field string
+			}{{portP, "SourcePort"}, {chanP, "SourceChannel"}} {
+				which := which
+				eq, _ := condEdges(fn, func(x, y ssa.Value) bool {
+					return backSlice(x).HasField("Allocation", which.field) && stripValue(y) == ssa.Value(which.p) ||
+						backSlice(y).HasField("Allocation", which.field) && stripValue(x) == ssa.Value(which.p)
+				})
+				w := PathQuery{Fn: fn, Target: isSuccessExit, DelEdge: edgeSet(eq)}.Search()
+				r.Check(len(eq) > 0 && w == nil, "R12", fnID(fn)+"#matches-"+which.field, P.Pos(fnPos(fn)), "an allocation is selected only where its "+which.field+" equals the requested one",
+					"an allocation can be selected although its "+which.field+" differs from the requested one (the two comparisons are not both required): a grant change or spend meant for one channel is applied to another channel's allocation", P.witness(w)...)
+			}
+		}
+		r.Floor("R12", "allocation selectors in precompiles/ics20", nA, 1)
+	}
+
 	// ---------- R8 ----------
 	r.Rule("R8", "OWN/SHAPE.limit-stays-limited: precompile code changes the limit of an existing staking grant only through `MaxTokens.Amount = MaxTokens.Amount.Sub(coin.Amount)` (decreaseAllowance) and `.Add(coin.Amount)` (increaseAllowance); it never stores the MaxTokens pointer itself — a nil MaxTokens means an unlimited grant, so replacing the pointer can turn a used-up limit into no limit")
 	nAmt := 0
